@@ -251,6 +251,12 @@ def r6_ack_when_consumed(ctx):
     C11.r4_client_acks(ctx)
 
 
+def r7_ack_list_pool(ctx):
+    """An acknowledgement never covers entities of an earlier message through a recycled entity list (same rule as C11.R6)."""
+    import rules.C11 as C11
+    C11.r6_ack_list_pool(ctx)
+
+
 RULES = [
     ("C02.R1", "the confirmed tick moves only forward on the mutate path", r1_monotone, 6, ["default", "all-features", "client-only"]),
     ("C02.R2", "stale mutate data is never written over newer state", r2_no_stale_write, 7, ["default", "all-features", "client-only"]),
@@ -258,5 +264,6 @@ RULES = [
     ("C02.R4", "a mutate message never splits an entity (same rule as C10.R1)", r4_no_split, 12, ["default", "all-features", "server-only"]),
     ("C02.R5", "update-tick stamping and waiting (C04.R2 + C01.R5) and tick fields in wire order", r5_stamping_and_waiting, 12, ["default", "all-features"]),
     ("C02.R6", "mutate messages are acknowledged only when consumed, so skipped-as-outdated data was really superseded (same rule as C11.R4)", r6_ack_when_consumed, 8, ["default", "all-features", "client-only"]),
+    ("C02.R7", "recycled acknowledgement entity lists are empty when reused (same rule as C11.R6)", r7_ack_list_pool, 1, ["default", "all-features", "server-only"]),
 ]
 THOROUGH_CONFIGS = ["default", "all-features", "server-only", "client-only"]
